@@ -227,7 +227,8 @@ def run(chk):
     need = {"threshold": {"THR"}, "fixed": {"FIX"}, "both": {"THR", "FIX"}}
     for name, req in need.items():
         me = Sym("config", criteria=getattr(crit, name), _threshold_m_trunc=lambda sigma: MinSet({"THR"}), _fixed_m_trunc=lambda sigma, idx, left: MinSet({"FIX"}))
-        it = SymInterp(src, None, {"CompressCriteria": crit, "min": smin, "len": lambda x: MinSet({"LEN"})})
+        it = SymInterp(src, None, {"CompressCriteria": crit, "min": smin, "len": lambda x: MinSet({"LEN"}),
+                                   "max": lambda *a: Sym("max(" + ", ".join(repr(x) for x in (a[0] if len(a) == 1 and isinstance(a[0], (list, tuple)) else a)) + ")")})
         res = it.call_function(cm, [me, "sigma", "idx", "left"])
         got = res.items if isinstance(res, MinSet) else {repr(res)}
         ok = req <= got and got <= {"THR", "FIX", "LEN"} and (name != "threshold" or "FIX" not in got) and (name != "fixed" or "THR" not in got)
